@@ -6,6 +6,7 @@ checks feed to the real readers is produced here, so the tie between a check and
 actual byte stream.
 """
 import datetime
+import random
 import json
 import os
 
@@ -276,6 +277,9 @@ def simple_track(nlines, i, lat0=10.0, lon0=20.0):
     return lats, lons
 
 
+AUTO_NOISE = None     # set by a check (an int seed): every default_lines() call then uses record noise
+
+
 def default_lines(fmt, nlines, start, sc=None, first=1, gaps=(), counts=None, qual=None, switch=None,
                   latlon=None, phase=0, numbers=None, noise=None):
     """Build a clean pass: line numbers first.. (skipping `gaps`), times from `start` at the nominal rate.
@@ -284,6 +288,8 @@ def default_lines(fmt, nlines, start, sc=None, first=1, gaps=(), counts=None, qu
     info = FMT[fmt]
     scale = 1e4 if info["family"] == "klm" else 128.0
     lines = []
+    if noise is None and AUTO_NOISE is not None:
+        noise = random.Random(AUTO_NOISE)      # same bytes for every file of one check run (twin files stay comparable)
     if numbers is None:
         numbers = []
         n = first
